@@ -70,7 +70,9 @@ class C19(object):
                          'logfile.judged',
                          'logfile.after_a_model_that_failed_inside_main',
                          'table_after_failed_series_lookups.judged',
-                         'logfile.with_retrieval_options_set_before_main')
+                         'logfile.with_retrieval_options_set_before_main',
+                         'logfile.with_warnings_escalated_to_errors',
+                         'logfile.with_the_main_log_registered_by_the_user_beforehand')
 
     def n_cases(self, tier):
         return 40 if tier == 'quick' else 4000
@@ -86,7 +88,10 @@ class C19(object):
             return {'kind': 'logfile', 'builder': rng.choice(['SIM', 'SIMEX1', 'PC']), 'maxtime': rng.randint(2, 12),
                     'failed_first': ['ConvergenceError', 'refused', None][(idx // 16) % 3],
                     # the retrieval options of Model.GetTimeSeries are set BEFORE main(): they concern what callers plot, not the table
-                    'retrieval_options_set_before_main': (idx // 16) % 2 == 0}
+                    'retrieval_options_set_before_main': (idx // 16) % 2 == 0,
+                    'warnings_are_errors': (idx // 16) % 2 == 1,
+                    # the user registered the main log under a name of his own before calling main(base)
+                    'main_log_preregistered': (idx // 16) % 3 == 2}
         if idx % 4 == 3:
             spec = G.gen_affine(rng, rho=rng.choice([0.2, 0.5]), tol=1e-8)
             case = {'kind': 'solve', 'spec': spec, 'text': G.render(spec), 'fmt': rng.choice(['%.5g', '%.12e', '%r']),
@@ -232,12 +237,23 @@ class C19(object):
                     bb = ambient.book_builders()[case['builder']](country_code='BB')
                     mb = bb.build_model()
                     mb.MaxTime = case['maxtime']
+                    if case.get('main_log_preregistered'):
+                        Logger.register_log(os.path.join(tmp, 'my_own_log.txt'), 'log')
+                        rec.count('logfile.with_the_main_log_registered_by_the_user_beforehand')
                     if case.get('retrieval_options_set_before_main'):
                         mb.TimeSeriesSupressTimeZero = True
                         mb.TimeSeriesCutoff = 1
                         rec.count('logfile.with_retrieval_options_set_before_main')
                     try:
-                        mb.main(base_b)
+                        if case.get('warnings_are_errors'):
+                            # the process escalates warnings (python -W error): nothing in a clean model run warrants one
+                            import warnings as _w
+                            with _w.catch_warnings():
+                                _w.simplefilter('error')
+                                mb.main(base_b)
+                            rec.count('logfile.with_warnings_escalated_to_errors')
+                        else:
+                            mb.main(base_b)
                     except Exception as e:
                         return {'verdict': 'notjudged', 'shape': 'logfile|' + type(e).__name__}
                     finally:
